@@ -636,7 +636,7 @@ package larking
 //@   modifies E$param
 //@   ensures base(ps) == 0 || isfresh(ps)
 
-//@ func (*Mux).serveHTTP serves C07 partial ghost count post
+//@ func (*Mux).serveHTTP serves C07 C09 partial ghost count post inv.init inv.keep dec index slice
 //@   requires m != nil && w != nil && r != nil
 //@   count loads `m.loadState(`
 //@   count begins `sh.HandleRPC(ctx, &stats.Begin{`
@@ -654,7 +654,7 @@ package larking
 //@        || StatusMsgOf(s#2)[len(arg1)] < 128 || StatusMsgOf(s#2)[len(arg1)] >= 192
 //@   assert atcall `ws.NewCloseFrameBody(` [websocket-close-reason-is-cut-at-the-last-boundary C05] len(StatusMsgOf(s#2)) > 123 ==>
 //@        (forall k :: len(arg1) < k && k <= 123 ==> 128 <= StatusMsgOf(s#2)[k] && StatusMsgOf(s#2)[k] < 192)
-//@   loop 1 invariant 0 <= n && n <= 123 && len(msg) > 123 && (forall k :: n < k && k <= 123 ==> 128 <= msg[k] && msg[k] < 192)
+//@   loop 1 invariant [close-reason C05 C09] 0 <= n && n <= 123 && len(msg) > 123 && (forall k :: n < k && k <= 123 ==> 128 <= msg[k] && msg[k] < 192)
 //@   loop 1 decreases n
 //@   witness verifWitnessWSCloseReason for websocket-close-reason-
 //@   assert atcall `ws.NewCloseFrameBody(` [websocket-close-code-is-the-mapped-code C05] (StatusCodeOf(s#2) <= 16 ==> arg0 == WSOf(StatusCodeOf(s#2))) && (StatusCodeOf(s#2) > 16 ==> arg0 == 1011)
